@@ -236,7 +236,8 @@ fn c19(r: &mut Rng, thorough: bool, w: W) -> std::io::Result<()> {
             1 => r.range(65000, 66000) as usize,
             _ => r.below(24) as usize,
         };
-        let len = if !thorough && len > 4000 { r.below(300) as usize } else { len };
+        // inputs around 64 KiB are 130 KB of hex each: a few hundred of them per run are enough
+        let len = if len > 4000 && (!thorough || !r.chance(1, 100)) { r.below(300) as usize } else { len };
         let mut s: Vec<u8> = match r.below(4) {
             0 => r.bytes(len),
             1 => utf8_no_nul(r, len).into_bytes(),
